@@ -164,6 +164,17 @@ fn check(case: &Case, run: &Run) -> Vec<Finding> {
                     json!({"granted": granted}),
                 );
             }
+            // nothing at all may follow the Encryption Request (not even bytes the client cannot read)
+            let after_enc = run.client.received.iter().skip_while(|r| !matches!(r.pkt, Ok(vp_common::refcodec::Pkt::EncryptionRequest { .. }))).skip(1).count();
+            // judged for the wrong-size-secret variants only: there the service was asked with a secret
+            // that cannot be the one keying the cipher, so any further (encrypted) traffic is a grant
+            if matches!(case.sc.client.enc, EncVariant::SecretLen(_)) && (after_enc > 0 || run.client.garbage.is_some() || run.client.incomplete_tail > 0) {
+                bad(
+                    &format!("traffic-after-failed-authentication/{why}"),
+                    format!("the server kept sending after the Encryption Request although {why}"),
+                    json!({"packets_after": after_enc, "undecodable_bytes": run.client.garbage.as_ref().map(|g| g.1.len())}),
+                );
+            }
             if !run.result.is_err() {
                 bad(
                     &format!("connection-not-ended/{why}/{}", run.result.kind()),
